@@ -28,6 +28,9 @@ type Parser struct {
 	nextNewline        bool
 	continuationNeeded bool
 	prevPos            int
+	nesting            int  // current nesting of parseExpression calls
+	astDepth           int  // depth of the deepest operand parsed so far for the expression being built
+	tooDeep            bool // MaxNesting or MaxASTDepth was exceeded: parsing is abandoned
 
 	errors []string
 
@@ -35,6 +38,14 @@ type Parser struct {
 	infixParseFns   map[token.Type]infixParseFn
 	postfixParseFns map[token.Type]postfixParseFn
 }
+
+// MaxNesting is the maximum nesting of expressions and blocks accepted in the source: the parser is
+// recursive and pathologically nested input would otherwise overflow the Go stack (which is fatal).
+const MaxNesting = 10_000
+
+// MaxASTDepth bounds the depth of the tree built for long operator/index/call chains (which are parsed
+// iteratively but are printed and evaluated recursively). Less than eval.DefaultMaxDepth.
+const MaxASTDepth = 100_000
 
 func (p *Parser) ContinuationNeeded() bool {
 	return p.continuationNeeded
@@ -145,6 +156,9 @@ func (p *Parser) nextToken() {
 	p.curToken = p.peekToken
 	p.prevPos = p.l.Pos()
 	p.peekToken = p.l.NextToken()
+	if p.tooDeep {
+		p.peekToken = token.EOFT // abandon the rest of the input.
+	}
 	p.prevNewline = p.nextNewline
 	p.nextNewline = p.l.HadNewline()
 }
@@ -283,6 +297,9 @@ func (p *Parser) ErrorLine(forPreviousToken bool) (string, int) {
 
 func (p *Parser) peekError(t token.Type) {
 	log.Debugf("peekError: %s", t)
+	if p.tooDeep {
+		return // already reported, unwinding.
+	}
 	errLine, lineNum := p.ErrorLine(false)
 	msg := fmt.Sprintf("%d: expected next token to be `%s`, got `%s` instead:\n%s",
 		lineNum, token.ByType(t).Literal(), p.peekToken.Literal(), errLine)
@@ -291,13 +308,37 @@ func (p *Parser) peekError(t token.Type) {
 
 func (p *Parser) noPrefixParseFnError(t *token.Token) {
 	log.Debugf("Adding noPrefixParseFnError: %s", t.DebugString())
+	if p.tooDeep {
+		return // already reported, unwinding.
+	}
 	errLine, lineNum := p.ErrorLine(true)
 	msg := fmt.Sprintf("%d: no prefix parse function for `%s` found:\n%s", lineNum, t.Literal(), errLine)
 	p.errors = append(p.errors, msg)
 }
 
+// tooNested counts one more level of parser recursion and reports (once) when MaxNesting is exceeded.
+// The caller decrements p.nesting when it returns.
+func (p *Parser) tooNested() bool {
+	p.nesting++
+	if p.nesting <= MaxNesting {
+		return false
+	}
+	if !p.tooDeep {
+		p.tooDeep = true
+		p.errors = append(p.errors, fmt.Sprintf("expression nesting too deep (max %d)", MaxNesting))
+	}
+	return true
+}
+
 func (p *Parser) parseExpression(precedence ast.Priority) ast.Node {
 	log.Debugf("parseExpression: %s precedence %s", p.curToken.DebugString(), precedence)
+	defer func() { p.nesting-- }()
+	if p.tooNested() {
+		return nil
+	}
+	outerDepth := p.astDepth
+	p.astDepth = 0
+	defer func() { p.astDepth = max(outerDepth, p.astDepth+1) }()
 	if p.curToken.Type() == token.EOL {
 		log.Debugf("parseExpression: EOL")
 		p.continuationNeeded = true
@@ -340,6 +381,12 @@ func (p *Parser) parseExpression(precedence ast.Priority) ast.Node {
 
 		p.nextToken()
 
+		p.astDepth++ // leftExp becomes an operand of the next node.
+		if p.astDepth > MaxASTDepth {
+			p.tooDeep = true
+			p.errors = append(p.errors, fmt.Sprintf("expression too deep (max %d)", MaxASTDepth))
+			return nil
+		}
 		leftExp = infix(leftExp)
 	}
 	return leftExp
@@ -567,6 +614,10 @@ func (p *Parser) parseIfExpression() ast.Node {
 
 		if p.peekTokenIs(token.IF) {
 			p.nextToken()
+			defer func() { p.nesting-- }()
+			if p.tooNested() { // else if chains recurse directly.
+				return nil
+			}
 			expression.Alternative = &ast.Statements{Statements: []ast.Node{p.parseIfExpression()}}
 			return expression
 		}
